@@ -8,6 +8,7 @@ import (
 	"go/token"
 	"go/types"
 	"os"
+	"regexp"
 	"sort"
 	"strings"
 
@@ -722,6 +723,14 @@ func (g *FuncGen) applyContract(ct *FuncContract, sig *types.Signature, args []V
 			a.GT = ptypes[i]
 		}
 		vars[n] = a
+	}
+	// positional aliases (arg0 = receiver or first argument), so that a caller's ghost statements read the same
+	// whether or not the callee has a contract - and cannot be captured by the callee's parameter names
+	for i := range names {
+		an := fmt.Sprintf("arg%d", i)
+		if _, taken := vars[an]; !taken {
+			vars[an] = vars[names[i]]
+		}
 	}
 	pre := g.cur.clone()
 	var calleePkg *types.Package
@@ -1585,6 +1594,8 @@ func (g *FuncGen) goStmt(x *ssa.Go) {
 
 // ---------- ghost statements at call sites ----------
 
+var positionalName = regexp.MustCompile(`^(arg[0-9]+|res[0-9]*)$`)
+
 func (g *FuncGen) runGhostAt(callee string, ord int, env *Env, results []Val) {
 	if g.contract == nil {
 		return
@@ -1610,6 +1621,21 @@ func (g *FuncGen) runGhostAt(callee string, ord int, env *Env, results []Val) {
 		}
 		for k, v := range env.vars {
 			genv.vars[k] = v
+			// the same name for different things in caller and callee: refuse rather than pick one silently
+			if positionalName.MatchString(k) {
+				continue
+			}
+			if pv, isParam := g.params[k]; isParam && pv.T != v.T {
+				if genv.ambig == nil {
+					genv.ambig = map[string]bool{}
+				}
+				genv.ambig[k] = true
+			} else if _, isLocal := g.names[k]; isLocal && !isParam {
+				if genv.ambig == nil {
+					genv.ambig = map[string]bool{}
+				}
+				genv.ambig[k] = true
+			}
 		}
 		// ... and the caller's locals whose (single) definition dominates the call site
 		cb := g.curBlock
